@@ -86,15 +86,18 @@ def model_proj(s):
         'conds': {c: [nm(i) for i in w] for c, w in s['conds'].items() if w},
         'evw': {c: [nm(i) for i in w] for c, w in s['evw'].items() if w},
         'ev': sorted(k for k, v in s['ev'].items() if v),
-        'ready': [nm(i) for i in s['ready']],
-        'gates': sorted(nm(i) for i in s['gates']),
+        'ready': [nm(i) + ('!' if i > 0 and tasks[i - 1]['mustcancel'] else '') for i in s['ready']],
+        'gates': sorted(('%s:%s' % (tasks[i - 1]['wait'][1], tasks[i - 1]['wait'][2])) if tasks[i - 1]['wait'][0] == 'cgate'
+                        else nm(i) for i in s['gates']),
         'timers': len(s['timers']),
         'done': s['outcome'][0],
+        'phase': 'draining' if (tasks[0]['stack'] and tasks[0]['stack'][-1].get('pc') == 'c2') else 'running',
     }
 
 
 class Capture:
     managers = []
+    owner = None
 
 
 def make_manager_cls():
@@ -116,16 +119,31 @@ def real_proj(ex):
     main = ex.main.get(1)
     done = 'pending'
     if main is not None and main.done():
-        if main.cancelled() or main.exception() is not None:
+        if main.cancelled():
+            done = 'cancelled'
+        elif main.exception() is not None:
             done = 'error'
         else:
             done = 'value' if main.result().error is None else 'error'
-    if mgr is None:
+    gates0 = sorted(('%s:%s' % (g.info[1], g.info[3])) if g.kind == 'collab' else (g.info or (0, '?'))[1]
+                    for g in loop.pending_gates())
+    if mgr is None or (main is not None and Capture.owner is not main and False):
         return {'res': {}, 'hid': [], 'proc': [], 'hidp': [], 'sw': {}, 'active': [], 'addl': [], 'conds': {},
-                'evw': {}, 'ev': [], 'ready': [tname(getattr(o, 'get_name', lambda: '?')()) for o in loop.ready_owners()],
-                'gates': [], 'timers': 0, 'done': done}
+                'evw': {}, 'ev': [], 'ready': [(tname(o.get_name()) + ('!' if o.cancelling() else '')) if isinstance(o, asyncio.Task)
+                                               else 'timer' for o in loop.ready_owners()],
+                'gates': gates0, 'timers': 0, 'done': done, 'phase': 'running'}
     stg = mgr._node_storage
     short = rtm.short
+    # is DAGRunConcurrentManager.run still on the main task's await chain?
+    phase = 'running'
+    if main is not None and not main.done():
+        names = []
+        c = main.get_coro()
+        while c is not None and hasattr(c, 'cr_code'):
+            names.append(c.cr_code.co_qualname)
+            c = c.cr_await
+        if names and not any(x.endswith('DAGRunConcurrentManager.run') or x.endswith('Recording.run') for x in names):
+            phase = 'draining'
     res = {short(k): kind_of(v) for k, v in stg.node_results.data.items()}
     hid = sorted(short(k) for k in stg.node_results._hidden_keys if k in stg.node_results.data)
     proc = sorted(short(k) for k in stg.processed_nodes.data if not isinstance(k, tuple))
@@ -162,20 +180,36 @@ def real_proj(ex):
             ev.append(short(n))
     ready = []
     for o in loop.ready_owners():
-        ready.append(tname(o.get_name()) if isinstance(o, asyncio.Task) else 'timer')
-    gates = sorted((g.info or (0, '?'))[1] for g in loop.pending_gates())
+        ready.append((tname(o.get_name()) + ('!' if o.cancelling() else '')) if isinstance(o, asyncio.Task) else 'timer')
+    gates = sorted(('%s:%s' % (g.info[1], g.info[3])) if g.kind == 'collab' else (g.info or (0, '?'))[1]
+                   for g in loop.pending_gates())
     return {'res': res, 'hid': hid, 'proc': proc, 'hidp': hidp, 'sw': sw, 'active': [tuple(a) for a in active],
             'addl': sorted(short(k) for k in mgr._additional_data),
             'conds': conds, 'evw': evw, 'ev': sorted(ev), 'ready': ready, 'gates': gates,
-            'timers': len(loop.pending_timers()), 'done': done}
+            'timers': len(loop.pending_timers()), 'done': done, 'phase': phase}
 
 
 def normalise(p):
     """at the end of the run `_stop_coro_tasks(*self._coro_tasks)` iterates a SET of tasks (address order): the
     order of the final cancellation wake-ups is not part of the engine's behaviour, compare it as a multiset"""
     if p['done'] != 'pending':
-        p = dict(p, ready=sorted(p['ready']))
-    return p
+        return dict(p, ready=sorted(p['ready']))
+    if p.get('phase') == 'draining':
+        # manager.run() has executed its `finally` (every task cancelled in SET order, arbitrary): what follows is the
+        # cancelled tasks unwinding in that arbitrary order while PipelineChart.run awaits emit_on_pipeline_complete.
+        # Only the order-independent part is compared here; what is left on the loop is judged at level O (C13).
+        return {'phase': 'draining', 'done': p['done'], 'gates': [g for g in p['gates'] if g.startswith('ev:-')],
+                'res': p['res'], 'sw': p['sw']}
+    # wake-ups of tasks with a pending cancellation (marked '!'): sort every maximal run of them
+    out = []
+    run = []
+    for x in p['ready']:
+        if x.endswith('!'):
+            run.append(x)
+        else:
+            out += sorted(run) + [x]
+            run = []
+    return dict(p, ready=out + sorted(run))
 
 
 def diff(a, b):
@@ -212,6 +246,10 @@ class Replayer:
             if not cands:
                 return 'no pending gate for %s' % label[1]
             ex.apply(cands[0])
+        elif kind == 'cancel':
+            if 1 not in ex.main or ex.main[1].done():
+                return 'nothing to cancel'
+            ex.apply(('cancel', 1))
         elif kind == 'tick':
             if not ex.loop.pending_timers():
                 return 'no timer'
@@ -219,7 +257,7 @@ class Replayer:
         return None
 
 
-def replay_graph(prog, inst=None, max_paths=100000, collect=False, finish=True):
+def replay_graph(prog, inst=None, max_paths=100000, collect=False, finish=True, cancel=False, collab=None):
     """Replay the instance's model graph on the real engine: every walk follows the access path to a state with an
     uncovered out-edge, then keeps taking uncovered edges, and (finish=True) is completed to the end of the run so
     that it is also a complete execution for level O.  After the first divergence (MODEL-DRIFT) nothing is compared
@@ -227,7 +265,9 @@ def replay_graph(prog, inst=None, max_paths=100000, collect=False, finish=True):
     applicable, then the run is finished eagerly) - DESIGN 5.4.
     Returns counts, the first divergence and (collect=True) the recorded executions."""
     driver.install_fake_pools()
-    inst = inst or model.export_instance(prog)
+    if collab:
+        prog = dict(prog, collab={k: {'mode': v} for k, v in collab.items()})
+    inst = inst or model.export_instance(prog, cancel=cancel, collab=collab)
     init, states, edges, st = export_graph(inst)
     viol = sorted(set(re.findall(r'Invariant (\w+) is violated', st['out'])))
     out = {'states': len(states), 'transitions': sum(len(v) for v in edges.values()), 'replayed': 0, 'paths': 0,
